@@ -112,7 +112,8 @@ CHECKS.update({
             "puts bytes 0x01-0xFF into every archive-derived string incl. the method field",
             "Exploration: invariant monitor on the captured terminal of every CLI run (also in C06/C07/C08/C10/C19 runs) plus a hostile-"
             "string generator (incl. strings of 200-350 bytes) across modes l lv v vv t x xn xq0-2 xi p e with filters on SimFS; a quarter of the "
-            "runs also fail one allocation of the tool or library (A-FAIL from the fourth allocation on).",
+            "runs also fail one allocation of the tool or library (A-FAIL from the fourth allocation on). The whole workload is run a second "
+            "time in the uninstrumented build (allocator re-use of freed blocks, which ASan's quarantine hides).",
             "Pure-input invariant claimed at the weakest level; file data dumped by 'p' is generated printable so that the whole output can be scanned.",
             "DESIGN.md 7 C18"),
     "C19": ("exploration",
